@@ -29,6 +29,8 @@ CLAUSE = {
 K_DECL = 'C09-replaced-declaration-keeps-parent'
 K_PROP = 'C09-removed-property-keeps-parent'
 K_PARENT = 'C09-rule-parent-not-maintained'
+K_RAW = 'C09-raw-list-edit'
+K_REINS = 'C09-rule-reinserted'
 K_SHAREDB = 'C09-shared-declaration-block'
 K_SHAREDP = 'C09-shared-property'
 KNOWN_OF_CLAUSE = {'gonedecl': K_DECL, 'goneprop': K_PROP, 'parent': K_PARENT}
@@ -181,6 +183,19 @@ class Oracle:
         f = KNOWN_OF_CLAUSE.get(k[0])
         if f in self.active_known:
             return f
+        # edits around the DOM methods: the object removed / inserted through the list object keeps / gets no back pointer
+        raw = st.raw_objs
+        if (k[0] in ('gone', 'parent', 'charset') and k[1] in raw) or (
+                k[0] == 'link' and k[1] in raw and k[2] in ('parentStyleSheet', 'parentRule')) or (
+                k[0] == 'order' and (k[1] in raw or k[2] in raw)):
+            return K_RAW
+        if k[0] == 'charset':
+            top = list(st.sheet.cssRules)
+            at = [i for i, r in enumerate(top) if id(r) == k[1]]
+            if at and any(id(r) in raw for r in top[:at[0]]):
+                return K_RAW        # an object put in front of the @charset rule through the list object
+        if k[0] in ('link', 'parent') and k[1] in st.reinserted:
+            return K_REINS
         # a contained object handed in a second time: the block / property is held twice and names one holder
         if k[0] == 'link' and k[2] == 'style.parentRule':
             r = st.tracked.get(k[1])
